@@ -10,6 +10,7 @@ a driver error, never silently.
 import Drivers.Common
 import RioModel.Model.FilterJson
 import RioModel.Proofs.FilterPipe
+import RioModel.Props.C03tok
 open Lean Rio.Filter
 
 def handle (j : Json) : Except String Json := do
@@ -33,6 +34,13 @@ def handle (j : Json) : Except String Json := do
       let cs := splitAt body cuts
       safe1 && ok1 && safeGB htmlTokenize evalStandIn noCodec chain.items cs none &&
         (runG htmlTokenize evalStandIn noCodec chain.items cs none).isSome
+    -- the syntactic hypothesis of Rio.C03.chain_chunk_invariant_syntactic (W5's synSafeEnd at every cut)
+    let syn1 := Rio.C03.synSafeGB evalStandIn noCodec chain.items [body] none
+    let synFlags := scheds.map fun cuts => syn1 && Rio.C03.synSafeGB evalStandIn noCodec chain.items (splitAt body cuts) none
+    if synFlags.any id then tags := tags.push (toJson "syn-safe")
+    if synFlags.any (!·) then tags := tags.push (toJson "syn-unsafe")
+    for (fs, f) in synFlags.zip flags do
+      if fs && ok1 && !f then tags := tags.push (toJson "syn-safe-but-a-call-fails")
     if flags.any id then tags := tags.push (toJson "sem-safe")
     if flags.any (!·) then tags := tags.push (toJson "sem-unsafe")
     if chain.items.length > 1 && flags.any id then tags := tags.push (toJson "sem-safe-multistage")
